@@ -575,6 +575,7 @@ func main() {
 		"NewTLSConnectionWithTLSConfig", "gzipCompressor.getGzipReader", "packetizer.NextFrame",
 		"CancellableTimer.StartConstant", "CancellableTimer.StartRandom", "CancellableTimer.FireNow",
 		"CancellableTimer.Wait", "Connection.waitForConnection", "Connection.getReconnectChanLocked",
+		"Connection.fireConnectDelayTimerIfRequested",
 		"NewTLSConnection", "NewTLSConnectionWithDialable",
 		"NewTLSConnectionWithConnectionLogFactory", "copyTLSConfig"}
 	for i, fn := range ordFns {
@@ -725,7 +726,8 @@ func main() {
 		selFns := []string{"Connection.getReconnectChanLocked", "Connection.checkForRetry", "Connection.isConnectedLocked",
 			"Connection.waitForConnection", "Connection.doReconnect", "Connection.DoCommand", "Connection.connect",
 			"Connection.Shutdown", "ConnectionTransportTLS.Dial",
-			"CancellableTimer.Wait", "CancellableTimer.StartRandom", "isWithFireNow"}
+			"CancellableTimer.Wait", "CancellableTimer.StartRandom", "isWithFireNow",
+			"Connection.fireConnectDelayTimerIfRequested"}
 		var conds, rets, gos []string
 		for _, fn := range selFns {
 			fd, ok := fm[fn]
